@@ -1026,3 +1026,10 @@ R.mutant("pair-unpacked-in-body-swapped", TOPO,
 R.mutant("benign-pair-indexed", TOPO,
          sub("    for parent, child in tuples:\n        edges[child].add(parent)\n\n    todo",
              "    for pair in tuples:\n        edges[pair[1]].add(pair[0])\n\n    todo"), None)
+# the stored refactor benign/rfB_1.diff (and rfE_10) as a whole: locals renamed + loop -> comprehension for the emitted
+# batch + comprehension -> loop for the remaining items
+R.mutant("benign-rfB1-replica", TOPO,
+         chain(sub(_EMIT, "        output = [\n            node\n            for node in todo\n            if todo_set.isdisjoint(edges[node])\n        ]\n"),
+               sub("        todo = [t for t in todo if t in todo_set]\n",
+                   "        still_remaining = []\n        for item in todo:\n            if item in todo_set:\n                still_remaining.append(item)\n        todo = still_remaining\n"),
+               _rename_output), None)
